@@ -6,6 +6,7 @@ pub mod c19;
 pub mod c18;
 pub mod c11;
 pub mod c16;
+pub mod c15;
 
 pub fn run(prop: &str, rng: &mut R, out: &mut Out, extra: &[String]) -> bool {
     let _ = extra;
@@ -17,6 +18,7 @@ pub fn run(prop: &str, rng: &mut R, out: &mut Out, extra: &[String]) -> bool {
         "C18" => c18::run(rng, out),
         "C11" => c11::run(rng, out),
         "C16" => c16::run(rng, out),
+        "C15" => c15::run(rng, out),
         _ => return false,
     }
     true
